@@ -88,6 +88,7 @@ pub fn gen(r: &mut Rng) -> String {
     };
     let txs: String = (0..r.below(6)).map(|_| if r.below(4) != 0 { 'o' } else { 'e' }).collect();
     let mut wanted: Vec<usize> = vec![]; // event kinds some exchange of this history asks for
+    let mut requests: Vec<Packet> = vec![]; // the requests of the exchanges
     let mut ops: Vec<String> = vec![];
     let mut next_token = 0u32;
     let mut live: Vec<u32> = vec![];
@@ -129,16 +130,25 @@ pub fn gen(r: &mut Rng) -> String {
             }
             4 | 5 | 6 => ops.push("tick".into()),
             7 => ops.push(format!("send/{}", show::packet(&gen_packet(r, own)))),
-            8 => {
+            8 | 9 => {
                 let k = r.below(16) as usize;
                 wanted.push(k);
-                ops.push(format!("xchg/{}/{}/{}", k, if r.flip() { 'c' } else { 'o' }, show::packet(&gen_packet(r, own))));
+                // the request: any packet, or (one in three) an event of the very kind that is awaited, so that a peer's
+                // answer can be byte-identical to the request (a discover request answered by a discover event)
+                let req = if r.below(3) == 0 {
+                    let mut p = Ev::gen(k, r).ref_packet();
+                    if p.data.len() > 40 {
+                        p = Ev::gen(3, r).ref_packet();
+                    }
+                    p.device_address = gen_addr(r, own);
+                    p
+                } else {
+                    gen_packet(r, own)
+                };
+                requests.push(req.clone());
+                ops.push(format!("{}/{}/{}/{}", if r.flip() { "xchg" } else { "xall" }, k, if r.flip() { 'c' } else { 'o' }, show::packet(&req)));
             }
-            _ => {
-                let k = r.below(16) as usize;
-                wanted.push(k);
-                ops.push(format!("xall/{}/{}/{}", k, if r.flip() { 'c' } else { 'o' }, show::packet(&gen_packet(r, own))));
-            }
+            _ => unreachable!(),
         }
     }
     // the link's receive queue: half of the packets are replies of a kind one of the exchanges asks for (addressed to the
@@ -159,6 +169,7 @@ pub fn gen(r: &mut Rng) -> String {
                 }
                 show::packet(&p)
             }
+            5 if !requests.is_empty() => show::packet(r.pick(&requests)), // an echo of a request
             _ => show::packet(&gen_packet(r, own)),
         })
         .collect();
